@@ -81,8 +81,11 @@ def gen_rt(data: bytes):
     n = 1 + (tp.below(4) if tp.chance(100) else tp.below(60))
     elems = [1 + tp.below(118) for _ in range(n)]
     coords = [[draw_coord(tp) for _ in range(3)] for _ in range(n)]
-    return {"part": "roundtrip", "elements": elems, "coords": coords,
+    case = {"part": "roundtrip", "elements": elems, "coords": coords,
             "comment": draw_comment(tp)}
+    if tp.chance(70):
+        case["then_move"] = [round(draw_coord(tp) % 50.0, 6) for _ in range(3)]
+    return case
 
 
 def gen_conn(data: bytes):
@@ -94,9 +97,9 @@ def gen_conn(data: bytes):
     coords = [(0.0, 0.0, 0.0)]
     for i in range(1, n):
         prev = tp.below(i)
-        # log-uniform 3e-6 .. 0.3 (the check itself requires >= 1e-6)
-        eps = 10 ** (-(tp.below(5001) / 1000.0) - 0.52)
-        eps = max(3e-6, min(eps, 0.3))
+        # log-uniform 1e-8 .. 0.3 (the check itself requires >= 1e-9)
+        eps = 10 ** (-(tp.below(7501) / 1000.0) - 0.52)
+        eps = max(1e-8, min(eps, 0.3))
         f = (1 - eps) if tp.chance(128) else (1 + eps)
         d = f * G.cutoff(elems[prev], elems[i])
         if tp.chance(6):
@@ -179,6 +182,30 @@ def check_roundtrip(ctx, case):
     with guard(f"C20/roundtrip/from_xyz/{tag}/comment-{ck}"):
         back = Geometry.from_xyz(text)
     compare(back, "from_xyz")
+    if case.get("then_move"):
+        # the same Geometry object, moved through its public coords array,
+        # written once more
+        import numpy as np
+        dx = [float(v) for v in case["then_move"]]
+        with guard(f"C20/roundtrip/move-and-write-again/{tag}"):
+            geo.coords += np.array(dx)
+            text2 = geo.xyz_str("again")
+            back3 = Geometry.from_xyz(text2)
+        moved_ = [[c[k] + dx[k] for k in range(3)] for c in coords]
+        if any(abs(v) > 1e6 for r in moved_ for v in r):
+            pass
+        else:
+            bc = back3.coords
+            for i in range(n):
+                for j in range(3):
+                    if abs(float(bc[i][j]) - moved_[i][j]) > 5.1e-9 + \
+                            1e-15 * abs(moved_[i][j]):
+                        raise Violation(
+                            f"C20/roundtrip/written-again-after-move/"
+                            f"coordinate-differs/{tag}",
+                            f"atom {i} axis {j}: object holds "
+                            f"{moved_[i][j]!r}, text gives "
+                            f"{float(bc[i][j])!r}")
     d = os.path.join(VERIF, "scratch")
     os.makedirs(d, exist_ok=True)
     fd, path = tempfile.mkstemp(suffix=".xyz", dir=d)
@@ -228,11 +255,16 @@ def check_connectivity(ctx, case):
     n = len(elems)
     if n < 1:
         raise HarnessError("connectivity: n >= 1")
-    rel = _bond_relation(elems, coords, 1e-6)
+    # exactness: each geometry is judged by its own coordinates down to a
+    # relative distance of 1e-9 from the cutoff (float64 leaves ~1e-15);
+    # invariance under motion is only asserted when no pair of the original
+    # is within 1e-6 (moving coordinates of size 1e6 costs ~1e-10)
+    rel = _bond_relation(elems, coords, 1e-9)
     if rel is None:
         ctx.exclude("pair-too-close-to-cutoff")
         return None
     bonds, near = rel
+    robust = _bond_relation(elems, coords, 1e-6) is not None
     from stereomolgraph import MolGraph
     from stereomolgraph.coords import BondsFromDistance
 
@@ -305,10 +337,13 @@ def check_connectivity(ctx, case):
             f"{d:.6f}, cutoff {G.cutoff(elems[i], elems[j]):.6f}")
     R = G.quat_matrix(case["quat"])
     moved = G.transform(coords, R, tuple(case["shift"]))
-    got = observe(elems, moved, "rigid-motion")
-    if got != bonds:
-        raise Violation("C20/connectivity/rigid-motion/bonds-change",
-                        f"{sorted(got ^ bonds)}")
+    if robust:
+        got = observe(elems, moved, "rigid-motion")
+        if got != bonds:
+            raise Violation("C20/connectivity/rigid-motion/bonds-change",
+                            f"{sorted(got ^ bonds)}")
+    else:
+        ctx.classes["connectivity:within-1e-6-of-a-cutoff"] += 1
     perm = case["perm"]
     if sorted(perm) != list(range(n)):
         raise HarnessError("perm")
